@@ -29,8 +29,11 @@ const (
 	fpDefault = "2B280B23E1107BB62ABFC40DDCC8824814F80A72"
 	fpB2      = "8838024498816A039FCBBAB14E6F40A0843051FA"
 	fpAbsent  = "0123456789ABCDEF0123456789ABCDEF01234567"
-	urlB1     = "wss://r1.example/"
-	urlB2     = "wss://r2.example/"
+	// bridges whose record omits the relay address / gives it as null: configured relay URL = ""
+	fpB3  = "AAAA024498816A039FCBBAB14E6F40A0843051FA"
+	fpB4  = "BBBB024498816A039FCBBAB14E6F40A0843051FA"
+	urlB1 = "wss://r1.example/"
+	urlB2 = "wss://r2.example/"
 )
 
 var harnesses []*vs.Harness
@@ -130,6 +133,8 @@ func newWorld() *world {
 	ctx := NewBrokerContext(log.New(io.Discard, "", 0))
 	bl := fmt.Sprintf("{\"displayName\":\"b1\", \"webSocketAddress\":%q, \"fingerprint\":%q}\n{\"displayName\":\"b2\", \"webSocketAddress\":%q, \"fingerprint\":%q}\n",
 		urlB1, fpDefault, urlB2, fpB2)
+	// records with members missing, null or reordered (each line is a record of its own)
+	bl += fmt.Sprintf("{\"fingerprint\":%q, \"displayName\":\"b3\"}\n{\"displayName\":\"b4\", \"webSocketAddress\":null, \"fingerprint\":%q}\n", fpB3, fpB4)
 	if err := ctx.InstallBridgeListProfile(strings.NewReader(bl), "", ""); err != nil {
 		panic(err)
 	}
